@@ -12,7 +12,8 @@ package main
 //	[failgun=<j>: NewGun fails] [failbind=<j>: gun.Bind fails] [failsched=<j>: NewRPSSchedule fails (perinst=1 only)]
 //	round 3: [closeerr=1: every gun's Close returns an error] [panicshot=<id>:<n>: the n-th Shoot of the gun bound with InstanceID id panics]
 //	[provret=<ms> | proverr=<ms>: Provider.Run returns nil / an error at that instant while it still has ammo (prov=mem only)]
-//	[aggrerr=<ms>: Aggregator.Run returns an error at that instant] [failwarm=1: the pool's warm-up gun cannot be created]
+//	[aggrerr=<ms>: Aggregator.Run returns an error at that instant] [ctxerr=1: provider (prov=mem) and aggregator return their
+//	context's error, not nil, when the run context is done — as real ones do] [failwarm=1: the pool's warm-up gun cannot be created]
 //	failsched=<j> without perinst=1: the j-th call of NewRPSSchedule fails (j = 0: the shared schedule cannot be built, nothing may start)
 //	rps parts may also be unlim:MS (schedule.NewUnlimited) and composites
 //	<pool> || <pool> ...         several pools in ONE engine (cancel= is taken from the first); the observation is one
@@ -31,7 +32,7 @@ package main
 //	allawaited=<the `awaited` of the pool's log line "All instances runs awaited." (checkAllInstancesAreFinished went through), -1 = not seen>
 //	shots=<InstanceID:number of Shoot calls of the gun bound with it,...> (by id) rpstot=<tokens of a drained copy of the RPS profile, -1 = not
 //	countable (an unlimited part)> rpsmin=<ns, see rpsMin> rpsspans=<first Next call:first "finished" answer,... of every RPS schedule object
-//	that has reported its end> (cut `fail` = an instance could not be created or the provider / aggregator failed; cut `panic` = a gun panicked)
+//	that has reported its end> mfin=<Metrics.InstanceFinish, as mstart: of the engine minus the closed guns of the other pools> (cut `fail` = an instance could not be created or the provider / aggregator failed; cut `panic` = a gun panicked)
 
 import (
 	"context"
@@ -198,7 +199,9 @@ type memProvider struct {
 	// Run returns after retAfter (> 0) although ammo is left: nil, or an error (fail)
 	retAfter time.Duration
 	fail     bool
-	r        *rec
+	// Run returns its context's error (not nil) when the context is done, as providers reading a file do
+	ctxErr bool
+	r      *rec
 }
 
 func (p *memProvider) Run(ctx context.Context, _ core.ProviderDeps) error {
@@ -208,6 +211,9 @@ func (p *memProvider) Run(ctx context.Context, _ core.ProviderDeps) error {
 	}
 	select {
 	case <-ctx.Done():
+		if p.ctxErr {
+			return ctx.Err()
+		}
 		return nil
 	case <-tm:
 		if p.fail {
@@ -304,6 +310,7 @@ func (g *recGun) Close() error {
 
 type nopAggr struct {
 	errAfter time.Duration // > 0: Run returns an error at that instant
+	ctxErr   bool          // Run returns its context's error when the context is done
 	r        *rec
 }
 
@@ -314,6 +321,9 @@ func (a nopAggr) Run(ctx context.Context, _ core.AggregatorDeps) error {
 	}
 	select {
 	case <-ctx.Done():
+		if a.ctxErr {
+			return ctx.Err()
+		}
 		return nil
 	case <-tm:
 		a.r.cut("fail")
@@ -469,7 +479,7 @@ func newPoolCase(id string, m map[string]string) *poolCase {
 	}
 	var prov core.Provider = provider.NewNum(ammo)
 	if m["prov"] == "mem" {
-		mp := &memProvider{limit: int64(ammo), r: r}
+		mp := &memProvider{limit: int64(ammo), r: r, ctxErr: m["ctxerr"] == "1"}
 		if v := atoiKV(m, "provret", 0); v > 0 {
 			mp.retAfter = time.Duration(v) * time.Millisecond
 		}
@@ -484,7 +494,7 @@ func newPoolCase(id string, m map[string]string) *poolCase {
 	pc.conf = engine.InstancePoolConfig{
 		ID:         id,
 		Provider:   &recProvider{Provider: prov, r: r},
-		Aggregator: nopAggr{errAfter: time.Duration(atoiKV(m, "aggrerr", 0)) * time.Millisecond, r: r},
+		Aggregator: nopAggr{errAfter: time.Duration(atoiKV(m, "aggrerr", 0)) * time.Millisecond, ctxErr: m["ctxerr"] == "1", r: r},
 		NewGun: func() (core.Gun, error) {
 			gunMu.Lock()
 			n := gunCalls
@@ -628,19 +638,22 @@ func run(input string) string {
 			other.r.mu.Unlock()
 		}
 	}
-	sumK := int64(0)
+	sumK, sumX := int64(0), int64(0)
 	for _, pc := range pools {
+		pc.r.mu.Lock()
 		sumK += int64(len(pc.r.binds))
+		sumX += int64(len(pc.r.exits))
+		pc.r.mu.Unlock()
 	}
 	var outs []string
 	for _, pc := range pools {
-		outs = append(outs, pc.observation(logs, e, end, met.InstanceStart.Get()-sumK, jitter))
+		outs = append(outs, pc.observation(logs, e, end, met.InstanceStart.Get()-sumK, met.InstanceFinish.Get()-sumX, jitter))
 	}
 	return strings.Join(outs, " || ")
 }
 
 // observation of one pool; extraStarts = InstanceStart of the whole engine minus the bound guns of all pools (0 when they agree)
-func (pc *poolCase) observation(logs *observer.ObservedLogs, e string, end int64, extraStarts int64, jitter int64) string {
+func (pc *poolCase) observation(logs *observer.ObservedLogs, e string, end int64, extraStarts, extraFinishes int64, jitter int64) string {
 	r := pc.r
 	// what the pool logged about the start loop and the instances
 	started, starterr, allAwaited := int64(-1), "?", int64(-1)
@@ -729,10 +742,10 @@ func (pc *poolCase) observation(logs *observer.ObservedLogs, e string, end int64
 		rs.mu.Unlock()
 	}
 	pc.rpsMu.Unlock()
-	return fmt.Sprintf("k=%d err=%s end=%d mstart=%d fails=%d total=%d started=%d starterr=%s running=%d ids=%s toks=%s picks=%s ctoks=%s guns=%s binds=%s exits=%s cuts=%s jitter=%d lastshot=%d gunctx=%d allawaited=%d shots=%s rpstot=%d rpsmin=%d rpsspans=%s",
+	return fmt.Sprintf("k=%d err=%s end=%d mstart=%d fails=%d total=%d started=%d starterr=%s running=%d ids=%s toks=%s picks=%s ctoks=%s guns=%s binds=%s exits=%s cuts=%s jitter=%d lastshot=%d gunctx=%d allawaited=%d shots=%s rpstot=%d rpsmin=%d rpsspans=%s mfin=%d",
 		len(r.binds), e, end, int64(len(r.binds))+extraStarts, r.fails, len(pc.ctoks), started, starterr, len(r.binds)-len(r.exits), joinInts(ids),
 		joinInts(r.toks), joinInts(r.picks), joinInts(pc.ctoks), joinInts(r.guns), strings.Join(binds, ","), strings.Join(exits, ","), strings.Join(cuts, ","), jitter,
-		r.lastShot, r.gunCtx, allAwaited, strings.Join(shots, ","), pc.rpsTot, rpsMin(pc.m["rps"]), strings.Join(spans, ","))
+		r.lastShot, r.gunCtx, allAwaited, strings.Join(shots, ","), pc.rpsTot, rpsMin(pc.m["rps"]), strings.Join(spans, ","), int64(len(r.exits))+extraFinishes)
 }
 
 // startup profiles with every token at a multiple of 1 s (so that causes can be placed 500 ms away from every token)
@@ -784,8 +797,13 @@ func genStartupFree(r *rand.Rand) string {
 
 // two pools in one engine: each with its own profile and its own cause
 func genPools(r *rand.Rand) string {
-	a := withCause(r, nest(r, genStartup(r), r.Intn(2)), []int{0, 1, 2, 4, 5, 6, 7}[r.Intn(7)], 500+1000*r.Intn(3))
-	b := withCause(r, nest(r, genStartup(r), r.Intn(2)), []int{0, 0, 1, 2, 5, 6}[r.Intn(6)], 500+1000*r.Intn(3))
+	a := withCause(r, nest(r, genStartup(r), r.Intn(2)), []int{0, 1, 2, 4, 5, 6, 7, 9, 10, 11, 13}[r.Intn(11)], 500+1000*r.Intn(3))
+	b := withCause(r, nest(r, genStartup(r), r.Intn(2)), []int{0, 0, 1, 2, 5, 6, 9, 13}[r.Intn(8)], 500+1000*r.Intn(3))
+	if r.Intn(2) == 0 {
+		// providers / aggregators that answer the end of the run with the context's error
+		a += " prov=mem ctxerr=1"
+		b += " prov=mem ctxerr=1"
+	}
 	if r.Intn(3) == 0 {
 		a += fmt.Sprintf(" cancel=%d", 500+1000*r.Intn(4))
 	}
@@ -837,7 +855,7 @@ func withCause(r *rand.Rand, su string, kind, cutAt int) string {
 	case 11: // the provider returns early (with or without an error) / the aggregator fails
 		switch r.Intn(3) {
 		case 0:
-			return fmt.Sprintf("startup=%s rps=const:10:7500 ammo=0 resp=0 prov=mem provret=%d", su, cutAt)
+			return fmt.Sprintf("startup=%s rps=const:10:7500 ammo=0 resp=0 prov=mem provret=%d%s", su, cutAt, []string{"", " ctxerr=1"}[r.Intn(2)])
 		case 1:
 			return fmt.Sprintf("startup=%s rps=const:10:12000 ammo=0 resp=0 prov=mem proverr=%d", su, cutAt)
 		default:
@@ -982,6 +1000,10 @@ func gen(r *rand.Rand, tier string) []string {
 		"startup=const:1:3000 rps=const:10:4000 ammo=0 resp=0 prov=mem provret=500",
 		"startup=const:1:3000 rps=const:10:10000 ammo=0 resp=0 prov=mem proverr=1500",
 		"startup=once:2+const:0:1000+once:2 rps=const:10:10000 ammo=0 resp=0 aggrerr=500",
+		// a provider / aggregator that answers the END of the run with the context's error: that is not a failure (one pool, and
+		// two pools of which the first finishes long before the second)
+		"startup=once:2 rps=const:10:600 ammo=0 resp=0 prov=mem ctxerr=1",
+		"startup=once:2 rps=const:20:400 ammo=0 resp=0 prov=mem ctxerr=1 || startup=const:1:2000 rps=const:10:2500 ammo=0 resp=0 prov=mem ctxerr=1",
 		// the pool cannot even begin: the shared RPS schedule / the warm-up gun cannot be created — nothing may start
 		"startup=once:3 rps=const:10:1000 ammo=0 resp=0 failsched=0",
 		"startup=once:3 rps=const:10:1000 ammo=0 resp=0 failwarm=1",
